@@ -19,6 +19,7 @@ thread_local! {
     static CLOCK_READS: Cell<u64> = Cell::new(0);
     static FUEL_LEFT: Cell<u64> = Cell::new(u64::MAX);
     static TICKS: Cell<u64> = Cell::new(0);
+    static WORK_LEFT: Cell<u64> = Cell::new(u64::MAX);
     static BUGGIFY_MASK: Cell<u32> = Cell::new(0);
     static BUGGIFY_STATE: Cell<u64> = Cell::new(0);
     static BUGGIFY_FIRED: RefCell<[u64; 8]> = RefCell::new([0; 8]);
@@ -210,6 +211,27 @@ pub(crate) fn tick() {
     });
 }
 
+/// Budget for `work()` units (iterations of the combinatorial loops over group variants and
+/// match candidates). Exceeding it panics with "work budget exceeded": the simulator discards
+/// such a run as too expensive; it is not a claim about termination.
+pub fn set_work_budget(n: u64) {
+    WORK_LEFT.with(|f| f.set(n));
+}
+
+#[inline]
+pub(crate) fn work() {
+    WORK_LEFT.with(|f| {
+        let v = f.get();
+        if v == 0 {
+            f.set(u64::MAX);
+            panic!("verif: work budget exceeded");
+        }
+        if v != u64::MAX {
+            f.set(v - 1);
+        }
+    });
+}
+
 #[inline]
 pub(crate) fn probe(name: &'static str) {
     PROBES.with(|p| {
@@ -265,6 +287,7 @@ pub fn reset_all() {
     clock_set_auto_step(0);
     CLOCK_READS.with(|c| c.set(0));
     set_fuel(u64::MAX);
+    set_work_budget(u64::MAX);
     TICKS.with(|t| t.set(0));
     set_buggify(0, 0);
     BUGGIFY_FIRED.with(|f| *f.borrow_mut() = [0; 8]);
